@@ -24,6 +24,7 @@ for c in CANONICAL:
 for v in FMT:
     if v[1] not in 'Qq':       # the 64-bit formats are left out of the canonical lemma (their byte-identity obligation does not discharge in the budget)
         PROGRAMS.append(dict(program='canonical', cls='FormatField', tags=('C02',), variant=v))
+PROGRAMS.append(dict(program='lazy_list', cls='LazyArray', tags=('C16',)))
 from .classes import VariantDict  # noqa
 for _u in (1, 2):
     PROGRAMS.append(dict(program='canonical', cls='NullTerminated', tags=('C02',), variant=VariantDict(term_len=_u)))
@@ -131,3 +132,17 @@ def _nullterminated_hints(eng, st, args):
 from pyvc.terms import I  # noqa
 ghost.HINTS['NullTerminated'] = _nullterminated_hints
 HYPOTHESES.append('C02 only - NullTerminated: the canonical bytes of the inner construct contain no aligned terminator (otherwise the naive scan cuts the region short); asserted for the rebuilt bytes only')
+
+
+def _lazyarray_domain(eng, st):
+    """hypothesis of C16: the element construct has no cross references (its parse and its size do not depend on the scope)"""
+    from .lazyarray import scope_independence_of
+    st.assume(scope_independence_of(st.env['self'].fields['subcon'].ident))
+
+
+DOMAIN['LazyArray'] = _lazyarray_domain
+HYPOTHESES += ['C16 only - no cross references: parsing an element and asking its actual size give the same answers in every scope',
+               'C16 only - measured is parsed: when _actualsize answers n and the parse succeeds, the parse advances by exactly n',
+               'C16 only - measurable or says so: an element that parses either answers _actualsize or raises SizeofError']
+from . import lazylemmas as _lzl  # noqa
+ghost.POST_HINTS['LazyArray'] = _lzl.post_hints
